@@ -361,21 +361,21 @@ def build_p16(ctx):
     for (m, kind, h) in ERASED_ROWS:
         # 1 mutate source
         pair("P16:%s:1-mutate-source" % m, "mutating the source while the handle is alive",
-             "    let mut v = mk();\n    let h = %s;\n    v.clear();\n    keep(&h);" % h,
-             "    let mut v = mk();\n    let h = %s;\n    keep(&h);\n    v.clear();" % h)
+             "    let mut v = mk();\n    let h = %s;\n    v.clear();\n    keep(&h);\n    drop(h);" % h,
+             "    let mut v = mk();\n    let h = %s;\n    keep(&h);\n    drop(h);\n    v.clear();" % h)
         if kind == "excl":
             pair("P16:%s:2-read-under-exclusive" % m, "reading the source while an exclusive handle is alive",
-                 "    let mut v = mk();\n    let h = %s;\n    let _n = v.len();\n    keep(&h);" % h,
-                 "    let mut v = mk();\n    let h = %s;\n    keep(&h);\n    let _n = v.len();" % h)
+                 "    let mut v = mk();\n    let h = %s;\n    let _n = v.len();\n    keep(&h);\n    drop(h);" % h,
+                 "    let mut v = mk();\n    let h = %s;\n    keep(&h);\n    drop(h);\n    let _n = v.len();" % h)
             pair("P16:%s:3-second-exclusive" % m, "a second exclusive handle while the first is alive",
-                 "    let mut v = mk();\n    let h = %s;\n    let g = %s;\n    keep(&h);\n    keep(&g);" % (h, h),
-                 "    let mut v = mk();\n    let h = %s;\n    keep(&h);\n    let g = %s;\n    keep(&g);" % (h, h))
+                 "    let mut v = mk();\n    let h = %s;\n    let g = %s;\n    keep(&h);\n    drop(h);\n    keep(&g);\n    drop(g);" % (h, h),
+                 "    let mut v = mk();\n    let h = %s;\n    keep(&h);\n    drop(h);\n    let g = %s;\n    keep(&g);\n    drop(g);" % (h, h))
         pair("P16:%s:4-move-drop-source" % m, "moving / dropping the source while the handle is alive",
-             "    let mut v = mk();\n    let h = %s;\n    drop(v);\n    keep(&h);" % h,
-             "    let mut v = mk();\n    let h = %s;\n    keep(&h);\n    drop(v);" % h)
+             "    let mut v = mk();\n    let h = %s;\n    drop(v);\n    keep(&h);\n    drop(h);" % h,
+             "    let mut v = mk();\n    let h = %s;\n    keep(&h);\n    drop(h);\n    drop(v);" % h)
         pair("P16:%s:5-escape-scope" % m, "keeping the handle beyond its source",
              "    let h;\n    {\n        let mut v = mk();\n        h = %s;\n    }\n    keep(&h);" % h,
-             "    let h;\n    {\n        let mut v = mk();\n        h = %s;\n        keep(&h);\n    }" % h)
+             "    {\n        let mut v = mk();\n        let h;\n        h = %s;\n        keep(&h);\n    }" % h)
     # 6 consume a removal handle twice
     for (m, h) in (("any_vec::AnyVec::<Traits, M>::pop", "v.pop().unwrap()"), ("any_vec::AnyVec::<Traits, M>::remove", "v.remove(0)"),
                    ("any_vec::AnyVec::<Traits, M>::swap_remove", "v.swap_remove(0)"), ("any_vec::AnyVec::<Traits, M>::drain", "v.drain(..).next().unwrap()")):
@@ -387,23 +387,25 @@ def build_p16(ctx):
         if kind in ("shared-view-consume", "excl-view-consume"):
             view = "v.downcast_ref::<String>().unwrap()" if kind.startswith("shared") else "v.downcast_mut::<String>().unwrap()"
             pair("P16:%s:1-mutate-source" % m, "mutating the source while items of the consumed view are alive",
-                 "    let mut v = mk();\n    let t = %s;\n    let h = %s;\n    v.clear();\n    keep(&h);" % (view, h),
-                 "    let mut v = mk();\n    let t = %s;\n    let h = %s;\n    keep(&h);\n    v.clear();" % (view, h))
+                 "    let mut v = mk();\n    let t = %s;\n    let h = %s;\n    v.clear();\n    keep(&h);\n    drop(h);" % (view, h),
+                 "    let mut v = mk();\n    let t = %s;\n    let h = %s;\n    keep(&h);\n    drop(h);\n    v.clear();" % (view, h))
             continue
-        # through a mutable view: 7 mutate through the view, then reuse the earlier borrow
-        pair("P16:%s:7-mutate-through-view" % m, "mutating through the typed view and then using an earlier borrow from it",
-             "    let mut v = mk();\n    let mut t = v.downcast_mut::<String>().unwrap();\n    let h = %s;\n    t.push(String::new());\n    keep(&h);" % h,
-             "    let mut v = mk();\n    let mut t = v.downcast_mut::<String>().unwrap();\n    let h = %s;\n    keep(&h);\n    t.push(String::new());" % h)
+        is_unsafe = "unsafe {" in h
+        # through a mutable view: 7 mutate through the view, then reuse the earlier borrow (unsafe accessors: caller obligation, listed not judged)
+        if not is_unsafe:
+          pair("P16:%s:7-mutate-through-view" % m, "mutating through the typed view and then using an earlier borrow from it",
+             "    let mut v = mk();\n    let mut t = v.downcast_mut::<String>().unwrap();\n    let h = %s;\n    t.push(String::new());\n    keep(&h);\n    drop(h);" % h,
+             "    let mut v = mk();\n    let mut t = v.downcast_mut::<String>().unwrap();\n    let h = %s;\n    keep(&h);\n    drop(h);\n    t.push(String::new());" % h)
         pair("P16:%s:1-mutate-source" % m, "mutating the source vector while a borrow from its typed view is alive",
-             "    let mut v = mk();\n    let mut t = v.downcast_mut::<String>().unwrap();\n    let h = %s;\n    v.clear();\n    keep(&h);" % h,
-             "    let mut v = mk();\n    let mut t = v.downcast_mut::<String>().unwrap();\n    let h = %s;\n    keep(&h);\n    v.clear();" % h)
+             "    let mut v = mk();\n    let mut t = v.downcast_mut::<String>().unwrap();\n    let h = %s;\n    v.clear();\n    keep(&h);\n    drop(h);" % h,
+             "    let mut v = mk();\n    let mut t = v.downcast_mut::<String>().unwrap();\n    let h = %s;\n    keep(&h);\n    drop(h);\n    v.clear();" % h)
         pair("P16:%s:5-escape-scope" % m, "keeping a borrow from the typed view beyond the vector",
              "    let h;\n    {\n        let mut v = mk();\n        let mut t = v.downcast_mut::<String>().unwrap();\n        h = %s;\n    }\n    keep(&h);" % h,
-             "    let h;\n    {\n        let mut v = mk();\n        let mut t = v.downcast_mut::<String>().unwrap();\n        h = %s;\n        keep(&h);\n    }" % h)
-        if kind == "excl":
+             "    {\n        let mut v = mk();\n        let mut t = v.downcast_mut::<String>().unwrap();\n        let h;\n        h = %s;\n        keep(&h);\n    }" % h)
+        if kind == "excl" and not is_unsafe:
             pair("P16:%s:8-two-mutable-paths" % m, "two simultaneous mutable paths to the same elements",
-                 "    let mut v = mk();\n    let mut t = v.downcast_mut::<String>().unwrap();\n    let a = %s;\n    let b = %s;\n    keep(&a);\n    keep(&b);" % (h, h),
-                 "    let mut v = mk();\n    let mut t = v.downcast_mut::<String>().unwrap();\n    let a = %s;\n    keep(&a);\n    let b = %s;\n    keep(&b);" % (h, h))
+                 "    let mut v = mk();\n    let mut t = v.downcast_mut::<String>().unwrap();\n    let a = %s;\n    let b = %s;\n    keep(&a);\n    drop(a);\n    keep(&b);\n    drop(b);" % (h, h),
+                 "    let mut v = mk();\n    let mut t = v.downcast_mut::<String>().unwrap();\n    let a = %s;\n    keep(&a);\n    drop(a);\n    let b = %s;\n    keep(&b);\n    drop(b);" % (h, h))
     # element handles
     pair("P16:element::ElementPointer::<'a, AnyVecPtr>::downcast_mut:8-two-mutable-paths", "two &mut T from one ElementMut",
          "    let mut v = mk();\n    let mut e = v.at_mut(0);\n    let a = e.downcast_mut::<String>().unwrap();\n    let b = e.downcast_mut::<String>().unwrap();\n    keep(&a);\n    keep(&b);",
@@ -434,13 +436,13 @@ def build_p16(ctx):
          "    let mut v = mk();\n    let e = v.at(0);\n    let l = e.lazy_clone();\n    keep(&l);\n    v.clear();")
     pair("P16:any_value::AnyValueCloneable::lazy_clone:5-escape-scope", "lazy clone outliving its source element",
          "    let mut v = mk();\n    let l;\n    {\n        let e = v.swap_remove(0);\n        l = e.lazy_clone();\n    }\n    keep(&l);",
-         "    let mut v = mk();\n    let l;\n    {\n        let e = v.swap_remove(0);\n        l = e.lazy_clone();\n        keep(&l);\n    }")
+         "    let mut v = mk();\n    {\n        let e = v.swap_remove(0);\n        let l;\n        l = e.lazy_clone();\n        keep(&l);\n    }")
     pair("P16:any_value::AnyValueCloneable::lazy_clone:4-move-drop-source", "source handle consumed while a lazy clone of it is alive",
          "    let mut v = mk();\n    let mut w = mk();\n    let e = v.swap_remove(0);\n    let l = e.lazy_clone();\n    w.push(e);\n    w.push(l);",
          "    let mut v = mk();\n    let mut w = mk();\n    let e = v.swap_remove(0);\n    let l = e.lazy_clone();\n    w.push(l);\n    w.push(e);")
     pair("P16:drained-item:1-mutate-source", "a drained item kept across a mutation of the vector",
-         "    let mut v = mk();\n    let e = v.drain(..).next().unwrap();\n    v.clear();\n    keep(&e);",
-         "    let mut v = mk();\n    let e = v.drain(..).next().unwrap();\n    keep(&e);\n    v.clear();")
+         "    let mut v = mk();\n    let e = v.drain(..).next().unwrap();\n    v.clear();\n    keep(&e);\n    drop(e);",
+         "    let mut v = mk();\n    let e = v.drain(..).next().unwrap();\n    keep(&e);\n    drop(e);\n    v.clear();")
     pair("P16:typed-view:2-read-under-exclusive", "using the vector while its mutable typed view is alive",
          "    let mut v = mk();\n    let mut t = v.downcast_mut::<String>().unwrap();\n    let _n = v.len();\n    t.push(String::new());",
          "    let mut v = mk();\n    let mut t = v.downcast_mut::<String>().unwrap();\n    t.push(String::new());\n    let _n = v.len();")
